@@ -28,12 +28,24 @@ def sparse_placeholder(S, ok_values) -> dict:
             "vals": [0 if v == 0 else 1 for v in vals]}
 
 
+def fresh(fn):
+    """every call of a generator returns a new object: the first result is overwritten in place, the second is used"""
+    import bind
+    ttb = bind.ttb
+    r0 = fn()
+    if isinstance(r0, ttb.tensor) and r0.data.size:
+        r0.data[...] = 77
+    elif isinstance(r0, ttb.sptensor) and r0.vals.size:
+        r0.vals[...] = 77
+    return fn()
+
+
 def call(op: str, a: dict) -> dict:
     import bind
     ttb = bind.ttb
     try:
         if op in ("tenones", "tenzeros"):
-            r = getattr(ttb, op)(tuple(a["shape"]))
+            r = fresh(lambda: getattr(ttb, op)(tuple(a["shape"])))
             return {"st": "ok", "obj": bind.alpha(r)}
         if op == "from_function_dense":
             seen = []
@@ -51,10 +63,10 @@ def call(op: str, a: dict) -> dict:
             return {"st": "ok", "obj": bind.alpha(r), "argshape": seen[0] if len(seen) == 1 else []}
         if op in ("tendiag", "sptendiag"):
             e = np.array(a["e"], dtype=float)
-            r = getattr(ttb, op)(e, tuple(a["shape"])) if a["hasShape"] else getattr(ttb, op)(e)
+            r = fresh(lambda: getattr(ttb, op)(e, tuple(a["shape"])) if a["hasShape"] else getattr(ttb, op)(e))
             return {"st": "ok", "obj": bind.alpha(r)}
         if op == "teneye":
-            r = ttb.teneye(a["m"], a["n"])
+            r = fresh(lambda: ttb.teneye(a["m"], a["n"]))
             sc = ttb.tensor(r.data * math.factorial(a["m"]))
             return {"st": "ok", "obj": bind.alpha(sc)}
         if op == "from_function_ktensor":
@@ -75,12 +87,17 @@ def call(op: str, a: dict) -> dict:
             # presentation of the request (rotated with the array layout)
             f = {"strided": 2.0 ** -40, "grown": 2.0 ** 40}.get(bind.get_layout(), 1.0) if a["red"] in ("sum", "max", "min") else 1.0
             vals = vals * f
+            if bind.get_layout() == "swapped" and a["red"] in ("sum", "max", "min") and vals.size and \
+                    np.all(vals == np.round(vals)) and np.max(np.abs(vals)) * 40 <= 127:
+                # the same request with values stored in 8 bits (each fits, a sum of duplicates need not)
+                f = 40.0
+                vals = (vals * 40).astype(np.int8)
             if a["red"] == "sum" and len(a["subs"]) % 2 == 0:
                 r = ttb.sptensor.from_aggregator(subs, vals, tuple(a["shape"]))       # default reducer
             else:
                 r = ttb.sptensor.from_aggregator(subs, vals, tuple(a["shape"]), red)
             if f != 1.0:
-                r = ttb.sptensor(r.subs.copy(), r.vals / f, r.shape) if r.nnz else r
+                r = ttb.sptensor(r.subs.copy(), r.vals.astype(float) / f, r.shape) if r.nnz else r
             return {"st": "ok", "obj": bind.alpha(r)}
         if op in ("sptenrand", "from_function_sparse"):
             req = a["req"]
